@@ -49,11 +49,13 @@ ASSUMPTIONS = list(__import__("props.c01", fromlist=["x"]).ASSUMPTIONS) + [
 SB_PROPS = {"C15", "C01", "C02", "C06", "C07"}
 
 
-def gen_case(rng, min_remaps=2, micro=0.0):
+def gen_case(rng, min_remaps=2, micro=0.0, defaults=False):
     nd = rng.choice([1, 1, 2, 2, 3])
     dims = [rng.choice([1, 2, 3, 4, 5]) for _ in range(nd)]
     freq = rng.choice([2, 3, 4, 7])
     cap = rng.choice([1, max(1, freq - 1), freq, freq + 3, 50])
+    if defaults:        # the documented defaults remap_frequency=100, buffer_capacity=1000 (omitted by `make`)
+        freq, cap = 100, 1000
     dt = rng.choice(["f64", "f64", "f32"])
     force_micro = rng.random() < micro
     if force_micro:
@@ -120,10 +122,20 @@ def make(case):
     ranges = [(float(fr(a)), float(fr(b))) for a, b in zip(case["lo"], case["hi"])]
     rform = case.get("forms", {}).get("ranges")
     ranges = np.array(ranges) if rform == "nd" else ([list(r) for r in ranges] if rform == "lists" else ranges)
-    return SlidingBoundariesArchive(solution_dim=case["sol_dim"], dims=case["dims"], ranges=ranges,
-                                    remap_frequency=case["freq"], buffer_capacity=case["cap"],
-                                    qd_score_offset=float(fr(case["off"])), dtype=archlib.dtype_arg(case),
-                                    extra_fields=archlib.extra_fields(case["layout"]), seed=0)
+    kw = dict(remap_frequency=case["freq"], buffer_capacity=case["cap"], qd_score_offset=float(fr(case["off"])),
+              dtype=archlib.dtype_arg(case), extra_fields=archlib.extra_fields(case["layout"]))
+    # options at their documented default are omitted, so that the default itself is what runs (the oracle reads the case)
+    if case["freq"] == 100:
+        del kw["remap_frequency"]
+    if case["cap"] == 1000:
+        del kw["buffer_capacity"]
+    if fr(case["off"]) == 0:
+        del kw["qd_score_offset"]
+    if not case["layout"]:
+        del kw["extra_fields"]
+    if case["dtype"] == "f64" and case.get("forms", {}).get("dtype", "one") == "one":
+        del kw["dtype"]
+    return SlidingBoundariesArchive(solution_dim=case["sol_dim"], dims=case["dims"], ranges=ranges, seed=0, **kw)
 
 
 def geom(a, case):
@@ -575,6 +587,9 @@ def run(ctx):
                 time_budget=25 if ctx.quick else 330)
     ctx.explore("rank-sweep", (lambda rng: gen_rank(rng, big=not ctx.quick)), lambda c: run_case(c, {"C15"}),
                 ctx.n(6, 600), time_budget=12 if ctx.quick else 120)
+    # the documented defaults (remap every 100 insertions, buffer of 1000): histories of 200-400 insertions
+    ctx.explore("default-frequency", (lambda rng: gen_case(rng, defaults=True)), lambda c: run_case(c, {"C15"}),
+                ctx.n(2, 60), nontrivial=nontrivial, time_budget=15 if ctx.quick else 120)
 
 
 def replay(ctx, case):
